@@ -109,3 +109,23 @@ def ap_str(s):
 
 def bits(x):
     return struct.unpack(">Q", struct.pack(">d", x))[0]
+
+
+def same_number_text(got, exp):
+    """C15: `exp` is one shortest decimal of a double (Python repr's choice); `got` is acceptable when it is that text or another
+    decimal of the same length that reads back as the same double (when the double lies exactly half-way between two shortest
+    candidates both are 'the shortest decimal that reads back', and Rust and Python break the tie differently)"""
+    if got == exp:
+        return True
+    a, b = rust_parse_f64(got), rust_parse_f64(exp)
+    if a is None or b is None or a != a or b != b:
+        return False
+    if bits(a) != bits(b):
+        return False
+    strip = lambda t: t.lstrip("-").replace(".", "").strip("0")
+    return len(got) == len(exp) and len(strip(got)) == len(strip(exp)) and ("." in got) == ("." in exp)
+
+
+def same_output_numbers(got, exp):
+    gl, el = got.split("\n"), exp.split("\n")
+    return len(gl) == len(el) and all(same_number_text(g, e) for g, e in zip(gl, el))
